@@ -12,9 +12,23 @@ pub mod sym;
 pub mod util;
 
 #[cfg(cozy_chess_verif)]
+pub mod brd;
+#[cfg(cozy_chess_verif)]
 pub mod c05;
 #[cfg(cozy_chess_verif)]
+pub mod c06;
+#[cfg(cozy_chess_verif)]
+pub mod c08;
+#[cfg(cozy_chess_verif)]
+pub mod c16;
+#[cfg(cozy_chess_verif)]
+pub mod c20;
+#[cfg(cozy_chess_verif)]
 pub mod c17;
+#[cfg(cozy_chess_verif)]
+pub mod glue;
+#[cfg(cozy_chess_verif)]
+pub mod zob;
 #[cfg(cozy_chess_verif)]
 pub mod c18;
 #[cfg(cozy_chess_verif)]
@@ -43,8 +57,15 @@ macro_rules! proofs {
 #[cfg(cozy_chess_verif)]
 pub fn registry() -> Vec<(&'static str, fn(&mut nd::Recorded))> {
     let mut v = Vec::new();
+    v.extend(brd::registry());
     v.extend(c05::registry());
+    v.extend(c06::registry());
+    v.extend(c08::registry());
+    v.extend(c16::registry());
+    v.extend(c20::registry());
     v.extend(c17::registry());
+    v.extend(glue::registry());
+    v.extend(zob::registry());
     v.extend(c18::registry());
     v.extend(c19::registry());
     v
